@@ -192,6 +192,16 @@ class SeqPlan:
 
     def build(self, ctx):
         pkgs = sorted({RIG_PKG[r] for r in self.rigs})
+        self.bin_dir = os.path.join(TARGET, "release")
+        if ctx.tier == "thorough" and not os.environ.get("VERIF_THOROUGH_DEFAULT_FAMILY"):
+            # thorough: a query / system family regenerated from VERIF_SEED (new types => own target dir)
+            tdir = os.path.join(TARGET, "thorough")
+            ok, msg = cargo_build(pkgs, ctx.log, target_dir=tdir, extra_env={"BVH_GEN_SEED": str(1000 + ctx.seed)})
+            if ok:
+                self.bin_dir = os.path.join(tdir, "release")
+                self.family_seed = 1000 + ctx.seed
+            else:
+                ctx.log(f"[build] regenerated family (seed {1000 + ctx.seed}) does not build: {msg}; falling back to the default family")
         ok, msg = cargo_build(pkgs, ctx.log)
         if not ok:
             return ok, msg
@@ -232,7 +242,7 @@ class SeqPlan:
                         name=f"seq-{rig}-{prof}-{s}",
                         kind="native",
                         rig=rig,
-                        argv=[os.path.join(TARGET, "release", rig), "seq", "--profile", prof, "--seed", str(ctx.seed * 1000 + n), "--histories", str(hist), "--ops", str(ops), "--out", out],
+                        argv=[os.path.join(getattr(self, "bin_dir", os.path.join(TARGET, "release")), rig), "seq", "--profile", prof, "--seed", str(ctx.seed * 1000 + n), "--histories", str(hist), "--ops", str(ops), "--out", out],
                         out=out,
                         timeout=1500 if ctx.tier == "quick" else 7200,
                     )
@@ -386,6 +396,7 @@ class SeqPlan:
             tools=tools,
             rigs=self.rigs,
             profiles=self.profiles,
+            query_family_seed=getattr(self, "family_seed", 1),
         )
         verdict = "held"
         reason = ""
